@@ -532,6 +532,10 @@ class AbstractExcelInPython(ABC):
         try:
             cell = condition_function()
             is_error = bool(self._find_error_in_list([cell]))
+        except (RecursionError, MemoryError):
+            # not an error of the guarded formula: the interpreter ran out of room somewhere on the way (a chain of several hundred
+            # dependent cells). Handing out the fallback would give a silently wrong value that depends on the caller's stack depth.
+            raise
         except:
             is_error = True
 
